@@ -306,4 +306,51 @@ theorem processNextPt_winv {fuel : Nat} {st st' : St} {b : Bool} (hi : SInv st) 
         · exact g'
       · exact g
 
+theorem initGo_chains : ∀ (ls : List LoP) (st : St), (initGo ls st).chains = st.chains ∧
+    (initGo ls st).outputs = st.outputs
+  | [], st => by simp [initGo]
+  | l :: ls, st => by
+    simp only [initGo]
+    exact initGo_chains ls _
+
+theorem initState_winv (ps : List Poly) : WInv (initState ps) := by
+  obtain ⟨a, b⟩ := initGo_chains (inputLines ps) ⟨[], [], [], [], [], [], []⟩
+  refine ⟨?_, ?_⟩
+  · intro k c hc
+    have := chainAt_eq.1 hc
+    unfold initState at this
+    rw [a] at this
+    simp at this
+  · intro m hm
+    unfold initState at hm
+    rw [b] at hm
+    simp at hm
+
+/-- `build`: the chain invariant holds in the final state when every step is owned -/
+theorem buildLoop_winv (hf : Nat) : ∀ (fuel : Nat) (st st' : St), SInv st → WInv st →
+    (∀ r ∈ midStates hf fuel st, handsB r.1 r.2 = true) → buildLoop hf fuel st = some st' → WInv st'
+  | 0, st, st', _, _, _, h => by simp [buildLoop] at h
+  | fuel + 1, st, st', hi, hw, hown, h => by
+    have hown1 : ∀ st1 pt, nextPoint hf { st with incoming := [], outgoing := [] } = some (st1, some pt) →
+        handsB pt st1 = true := by
+      intro st1 pt e
+      refine hown (pt, st1) ?_
+      unfold midStates
+      rw [e]
+      simp
+    unfold buildLoop at h
+    osplit h
+    · rename_i st1 e1
+      cases h
+      exact processNextPt_winv hi hw hown1 e1
+    · rename_i st1 e1
+      have hw1 := processNextPt_winv hi hw hown1 e1
+      obtain ⟨_, _, i1, _⟩ := processNextPt_sinv hi e1
+      refine buildLoop_winv hf fuel st1 st' i1 hw1 ?_ h
+      intro r hr
+      refine hown r ?_
+      unfold midStates
+      rw [e1]
+      exact List.mem_append_right _ hr
+
 end Geo.Proofs.MONO2
